@@ -63,6 +63,7 @@ def strategy(tier: str):
             "how": st.sampled_from(("save", "save", "load-save", "stop", "context")),
             "old_layout": st.sampled_from(("native", "native", "legacy", "legacy-nulls")),
             "link": st.sampled_from((False, False, True)),
+            "old_age": st.sampled_from((0, 0, 899, 901, 3600, 86400 * 400)),
         }
     )
 
@@ -85,6 +86,8 @@ def enumerate_cases(tier: str):
                 yield {"old": old, "new": new, "same": False, "second": how == "save" and layout == "native", "how": how, "old_layout": layout}
                 if old is not None and layout == "native":
                     yield {"old": old, "new": new, "same": False, "second": False, "how": how, "old_layout": layout, "link": True}
+                    for age in (901, 86400 * 400):
+                        yield {"old": old, "new": new, "same": False, "second": False, "how": how, "old_layout": layout, "old_age": age}
 
 
 # ---------------------------------------------------------------------------
@@ -107,6 +110,11 @@ class _Control:
         if idx == self.crash_at:
             if kind == "write" and self.partial is not None:
                 return self.partial
+            if SOFT[0]:
+                # the process dies "politely": Ctrl-C / SIGTERM handler / sys.exit arrive as an exception at this operation and
+                # Python unwinds (finally blocks and exception handlers of the code under test run) before the process is gone
+                SOFT[0] = False
+                raise KeyboardInterrupt
             os._exit(0)
         return None
 
@@ -181,6 +189,8 @@ def _install(ctl: _Control) -> None:
         wrap_os(name)
 
 
+AGE = [0]  # seconds since the old file was written (set by run_case; applied whenever a directory state is restored)
+SOFT = [False]  # die by an exception raised at the crash point instead of a hard kill (set by the sweep; read in the child)
 HOWS = ("save", "load-save", "stop", "context")
 HOW = ["save"]  # how the process under test reaches its save (set by run_case around the sweeps; read in the forked child)
 
@@ -230,7 +240,13 @@ def _child(scratch: str, path: str, new: dict, crash_at: int, partial: int | Non
         gateway = Gateway(env.RecordingTransport(), Config(persistence_file=path))
         import asyncio
 
-        asyncio.run(_flow(gateway, new, HOW[0]))
+        soft = SOFT[0]
+        try:
+            asyncio.run(_flow(gateway, new, HOW[0]))
+        except KeyboardInterrupt:
+            if soft:
+                os._exit(0)  # died of the injected interrupt, after unwinding
+            raise
     except BaseException:  # noqa: BLE001
         os._exit(3)
     os._exit(0)
@@ -296,6 +312,11 @@ def _restore(scratch: str, state: dict) -> None:
             continue
         with open(os.path.join(scratch, name), "wb") as fil:
             fil.write(data)
+        if AGE[0]:
+            import time
+
+            old = time.time() - AGE[0]
+            os.utime(os.path.join(scratch, name), (old, old))  # the previous save happened that long ago
 
 
 def _sweep(scratch: str, path: str, start: dict, saving: dict, allowed: list, new_bytes: bytes, known: dict, only=None, label: str = ""):
@@ -327,13 +348,20 @@ def _sweep(scratch: str, path: str, start: dict, saving: dict, allowed: list, ne
                 if 0 < part < op["size"]:
                     points.append((idx, part))
     if only is not None:
-        points = [tuple(only)]
+        points = [tuple(only[:2])]
     only_live = all(op.get("path", live) == live and op["kind"] in ("open", "write", "close", "truncate") for op in ops)
     known_failure = None
     survivors = []
-    for crash_at, partial in points:
+    modes = [(c, p, False) for c, p in points] + ([(c, p, True) for c, p in points if p is None] if only is None or (len(only) > 2 and only[2]) else [])
+    if only is not None and len(only) > 2 and only[2]:
+        modes = [(only[0], only[1], True)]
+    for crash_at, partial, soft in modes:
         _restore(scratch, start)
-        code, _ = _fork(scratch, path, saving, crash_at, partial, False)
+        SOFT[0] = soft
+        try:
+            code, _ = _fork(scratch, path, saving, crash_at, partial, False)
+        finally:
+            SOFT[0] = False
         forks += 1
         if code == 3:
             return fail(f"run-raises-before-crash-point{label}", f"{label}saving through '{HOW[0]}' raised in the child before reaching operation {crash_at} (it did not in the dry run)", nontrivial=True), known_failure, forks, ops, survivors
@@ -348,7 +376,7 @@ def _sweep(scratch: str, path: str, start: dict, saving: dict, allowed: list, ne
             survivors.append((_dir_state(scratch), loaded))
             continue
         op = ops[crash_at]
-        where = f"{label}crash before op {crash_at} {op}" + (f" after {partial} of {op['size']} bytes" if partial is not None else "")
+        where = f"{label}{'interrupt (KeyboardInterrupt) at' if soft else 'crash before'} op {crash_at} {op}" + (f" after {partial} of {op['size']} bytes" if partial is not None else "")
         result = "read-error" if status != "ok" else ("empty-registry" if not loaded else "other-registry")
         opened_live = any(o["kind"] == "open" and o.get("path") == live and "w" in o.get("mode", "") for o in ops[:crash_at] + ([ops[crash_at]] if partial is not None else []))
         strict_prefix = on_disk is not None and new_bytes.startswith(on_disk) and on_disk != new_bytes
@@ -367,7 +395,7 @@ def _sweep(scratch: str, path: str, start: dict, saving: dict, allowed: list, ne
             sig,
             f"{where}: file on disk is {('%d bytes' % len(on_disk)) if on_disk is not None else 'missing'} "
             f"({'strict prefix of the new text' if strict_prefix else 'not a prefix of the new text'}; save operations: "
-            f"{[(o['kind'], o.get('path', '')) for o in ops]}); load gives {status} {str(loaded)[:160]!r} [only={[crash_at, partial]}]",
+            f"{[(o['kind'], o.get('path', '')) for o in ops]}); load gives {status} {str(loaded)[:160]!r} [only={[crash_at, partial, soft]}]",
             nontrivial=True,
         )
         if sig in known:
@@ -396,6 +424,7 @@ def run_case(case: dict) -> Outcome:
 
         how = case.get("how", "save")
         HOW[0] = how
+        AGE[0] = int(case.get("old_age") or 0)
         start: dict = {}
         old_snap: dict = {}
         if old is not None:
@@ -467,6 +496,7 @@ def run_case(case: dict) -> Outcome:
                     failure.extra_evals = forks_total - 1
                     return failure
     finally:
+        AGE[0] = 0
         shutil.rmtree(scratch, ignore_errors=True)
     if known_failure is not None:
         known_failure.extra_evals = forks_total - 1
